@@ -176,6 +176,32 @@ const ID_NEUTRAL_INPUT: [&str; 24] = [
 const ID_NEUTRAL_OUTPUT: [&str; 9] =
     ["redeem_script", "witness_script", "bip32_derivation", "tap_internal_key", "tap_tree", "tap_key_origins", "blind_value_proof", "blind_asset_proof", "proprietary"];
 const ID_NEUTRAL_GLOBAL: [&str; 4] = ["xpub", "tx_modifiable", "proprietary", "unknown"];
+/// explicit-value proof fields that are identity-neutral only when the corresponding commitment is already there
+const EXPLICIT_ON_BLINDED_INPUT: [&str; 4] = ["issuance_value_amount", "issuance_inflation_keys", "in_issuance_blind_value_proof", "in_issuance_blind_inflation_keys_proof"];
+
+/// a PSET whose first input has a blinded issuance (amount and keys commitments) and whose outputs are blinded
+pub fn blinded_base() -> Pset {
+    let mut p = base_pset(1, 2, 0);
+    {
+        let i = &mut p.inputs_mut()[0];
+        i.previous_output_index |= 1 << 31;
+        i.issuance_value_comm = Some(comm(0));
+        i.issuance_inflation_keys_comm = Some(comm(1));
+        i.issuance_asset_entropy = Some(pat32(5));
+        i.issuance_value_rangeproof = Some(rp(0));
+        i.issuance_keys_rangeproof = Some(rp(1));
+    }
+    for (j, o) in p.outputs_mut().iter_mut().enumerate() {
+        o.amount = None;
+        o.asset = None;
+        o.amount_comm = Some(comm(2 + j as u64));
+        o.asset_comm = Some(generator(j as u64));
+        o.value_rangeproof = Some(rp(j as u64));
+        o.asset_surjection_proof = Some(sp(j as u64));
+        o.ecdh_pubkey = Some(btc_pk(90 + j as u64));
+    }
+    p
+}
 
 pub fn apply(p: &mut Pset, u: &Upd) {
     match u {
@@ -183,6 +209,8 @@ pub fn apply(p: &mut Pset, u: &Upd) {
             let f = input_fields().into_iter().find(|f| f.name == name).expect("field");
             (f.set)(&mut p.inputs_mut()[*i], *v);
         }
+        Upd::Out(i, name, v) if name == "explicit-amount" => p.outputs_mut()[*i].amount = Some(1234 + *v),
+        Upd::Out(i, name, v) if name == "explicit-asset" => p.outputs_mut()[*i].asset = Some(elements::AssetId::from_byte_array(pat32(*v as usize))),
         Upd::Out(i, name, v) => {
             let f = output_fields().into_iter().find(|f| f.name == name).expect("field");
             (f.set)(&mut p.outputs_mut()[*i], *v);
@@ -228,6 +256,22 @@ fn bfs_unique_id(r: &Report, base: &Pset, base_name: &str, depth: usize) {
     }
     for name in ID_NEUTRAL_GLOBAL {
         ops.push(Upd::Glob(name.to_string(), 0));
+    }
+    // explicit-value fields next to existing commitments (the commitment keeps defining the transaction)
+    for i in 0..base.n_inputs() {
+        if base.inputs()[i].issuance_value_comm.is_some() && base.inputs()[i].issuance_inflation_keys_comm.is_some() {
+            for name in EXPLICIT_ON_BLINDED_INPUT {
+                ops.push(Upd::In(i, name.to_string(), 0));
+                ops.push(Upd::In(i, name.to_string(), 1));
+            }
+        }
+    }
+    for j in 0..base.n_outputs() {
+        if base.outputs()[j].amount_comm.is_some() && base.outputs()[j].asset_comm.is_some() {
+            ops.push(Upd::Out(j, "explicit-amount".to_string(), 0));
+            ops.push(Upd::Out(j, "explicit-amount".to_string(), 1));
+            ops.push(Upd::Out(j, "explicit-asset".to_string(), 0));
+        }
     }
     let mut seen: HashMap<Vec<u8>, ()> = HashMap::new();
     // (history, state, unique id still equal to the initial one on this path)
@@ -294,7 +338,11 @@ fn bfs_unique_id(r: &Report, base: &Pset, base_name: &str, depth: usize) {
         }
         if base.n_outputs() > 0 {
             let mut q = base.clone();
-            q.outputs_mut()[0].amount = Some(999_999);
+            if q.outputs()[0].amount_comm.is_some() {
+                q.outputs_mut()[0].amount_comm = Some(comm(7)); // the commitment defines the transaction there
+            } else {
+                q.outputs_mut()[0].amount = Some(999_999);
+            }
             controls += 1;
             if uid(&q) == Ok(id0) {
                 r.violation("unique-id/insensitive/output-amount", json!({"base": base_name}), "changing an output amount keeps the unique id");
@@ -451,6 +499,7 @@ pub fn run(r: &Report) {
         ("2in1out".to_string(), base_pset(2, 1, 0)),
         ("2in2out/issuance".to_string(), base_pset(2, 2, 1)),
         ("from_tx".to_string(), Pset::from_tx(to_tx(&RTx { version: 2, lock_time: 5, ins: vec![gen::txin_rep(gen::InKind::Plain, 0)], outs: vec![gen::txout_rep(0)] }))),
+        ("blinded-issuance+blinded-outputs".to_string(), blinded_base()),
     ];
     let bases: Vec<(String, Pset)> = if thorough { bases } else { bases.into_iter().enumerate().map(|(i, b)| (i, b)).filter(|(i, _)| *i != 4).map(|(_, b)| b).collect() };
     bases.par_iter().for_each(|(n, p)| {
@@ -495,6 +544,7 @@ pub fn replay(case: &Value) -> String {
             "1in1out/pegin" => base_pset(1, 1, 2),
             "2in1out" => base_pset(2, 1, 0),
             "2in2out/issuance" => base_pset(2, 2, 1),
+            "blinded-issuance+blinded-outputs" => blinded_base(),
             _ => Pset::from_tx(to_tx(&RTx { version: 2, lock_time: 5, ins: vec![gen::txin_rep(gen::InKind::Plain, 0)], outs: vec![gen::txout_rep(0)] })),
         };
         let id0 = uid(&p);
